@@ -20,14 +20,13 @@ MC = {
     "C02": {"quick": ["MC_C02_quick.cfg"], "thorough": ["MC_C02_thorough.cfg"]},
     "C03": {"quick": ["MC_C03_quick.cfg", "MC_C03_stopquick.cfg"], "thorough": ["MC_C03_thorough.cfg", "MC_C03_stop.cfg"]},
     "C04": {"quick": ["MC_C04_quick.cfg", "MC_C04_stopquick.cfg"], "thorough": ["MC_C04_thorough2.cfg", "MC_C04_stopquick.cfg", "MC_C04_thorough.cfg"]},
-    "C05": {"quick": ["MC_C05_quick.cfg"], "thorough": ["MC_C05_quick.cfg", "MC_C05_thorough.cfg"]},
+    "C05": {"quick": ["MC_C05_quick.cfg", "MC_C05_live.cfg"], "thorough": ["MC_C05_quick.cfg", "MC_C05_live.cfg", "MC_C05_thorough.cfg"]},
     "C15": {"quick": ["MC_C15_quick.cfg", "MC_C15_repeat.cfg", "MC_C15_live.cfg"], "thorough": ["MC_C15_thorough.cfg", "MC_C15_repeat.cfg", "MC_C15_live.cfg"]},
     # C08 (second stage of c08_check): the labels a finished run leaves behind under stop / timeout interleavings
     "C08": {"quick": ["MC_C08_labels.cfg"], "thorough": ["MC_C08_labels.cfg", "MC_C15_repeat.cfg"]},
 }
 # invariants that the model of the current code violates: counter-examples are leads to replay
 LEADS = {
-    "C05": ["MC_lead_C05_KillReaches.cfg"],
 }
 # scenario families of the harness's own generator, (family, quick count, thorough count)
 FAMILIES = {
